@@ -4,7 +4,8 @@ import RTV.Model.SpellEu
 1000 of es pt de nl fr it (`RTV.Num.spellOrdEu`), C04 / builder X2.
   no.spell <fr|it> <n>      (fr: n < 10^12, it: n < 10^15)        -> text cps | tok;tok;...
   no.multk <fr|it> <k>      (2..999 in front of the thousand word) -> text cps | tok;tok;...
-  no.ord <es|pt|de|nl|fr|it> <n>   (1 ≤ n < 1000)                  -> text cps | tok;tok;... -/
+  no.ord <es|pt|de|nl|fr|it> <n>   (1 ≤ n < 1000)                  -> text cps | tok;tok;...
+  no.ordde <n>              (German ordinals, 1 ≤ n < 10^6)        -> text cps | tok;tok;... -/
 namespace RTV.Drv.NumOrdD
 open RTV.Py RTV.Num RTV.Drv
 
@@ -35,11 +36,16 @@ def hOrd : Handler
     | none => "bad-culture"
   | _ => "bad-op"
 
+def hOrdDe : Handler
+  | [n] => showPair (spellOrdDe (parseNat n))
+  | _ => "bad-op"
+
 def dispatch (op : String) (args : List String) : Option String :=
   match op with
   | "no.spell" => some (hSpell args)
   | "no.multk" => some (hMultK args)
   | "no.ord" => some (hOrd args)
+  | "no.ordde" => some (hOrdDe args)
   | _ => none
 
 end RTV.Drv.NumOrdD
